@@ -11,6 +11,19 @@ package util
 //@   requires sep(self, data)
 //@   ensures [consumed] err == nil ==> n <= uint(len(data))
 
+//@ method util.Packable Size() (size uint)
+//@   props C15
+//@   pure
+//@   assigns nothing
+
+//@ method util.Packable Pack(buffer []byte)
+//@   props C15
+//@   encoder
+//@   requires uint(len(buffer)) >= self.Size()
+//@   requires sepdeep(self, buffer)
+//@   assigns buffer[0:self.Size()]
+//@   determines buffer[0:self.Size()]
+
 //@ func unpackUInt16(data []byte, output *uint16) (n uint, err error)
 //@   props C01
 //@   decoder
@@ -46,3 +59,25 @@ package util
 
 //@ func UnpackSome(data []byte, outputs ...interface{}) (n uint, err error)
 //@   inline
+
+//@ func Pack(buffer []byte, input interface{}) (n uint)
+//@   inline
+
+//@ func PackSome(buffer []byte, inputs ...interface{})
+//@   inline
+
+//@ func AllocAndPack(inputs ...Packable) (buffer []byte)
+//@   inline
+
+//@ func PackString(buffer []byte, maxLen uint, input string) (n uint, err error)
+//@   props C15
+//@   requires maxLen >= 1 && maxLen <= 65535 && uint(len(buffer)) >= maxLen
+//@   requires sep(input, buffer)
+//@   ensures [size] err == nil ==> n == maxLen
+//@   ensures [terminated] err == nil ==> buffer[maxLen-1] == 0
+//@   assigns buffer[0:maxLen]
+//@   determines buffer[0:maxLen]
+//@   loop 0 invariant len(encoded) <= i && (i <= int(maxLen) || i == len(encoded))
+//@   loop 0 invariant forall k in len(encoded)..i :: buffer[k] == 0
+//@   loop 0 decreases int(maxLen) - i
+//@   loop 0 assigns buffer[len(encoded):int(maxLen)]
